@@ -18,6 +18,9 @@ type Doc struct {
 	Class string // valid, type, nullok, bound, string, items, enum, required, delopt, addkey, default
 	Label string
 	Path  string
+	// Stated is the verdict ("accept" / "reject") the author of a hand-built stratum reads off the schema for a
+	// document in a zone where the reference model abstains; it is consulted only when the model has no opinion.
+	Stated string
 }
 
 // G generates documents.
